@@ -125,3 +125,9 @@ Theorem C11_no_factor_increases_the_rank p m n ra rb r (P Ua Va Ub Vb : qmat RR)
   meq p n (qmm m P (@usv RR ra Ua sa Va)) (@usv RR rb Ub sb Vb) -> sb r = 0%R.
 Proof. exact (left_factor_cannot_increase_rank p m n ra rb r P Ua Va Ub Vb sa sb). Qed.
 Print Assumptions C11_rank_invariant_under_invertible_factor.
+
+From QVT Require Import SquareIso.
+(* "invertible": for a square quaternion matrix a one-sided inverse is two-sided (the hypothesis `Pinv P = I` of the rank theorem is the full one) *)
+Theorem C11_left_inverse_is_right_inverse n (A Ainv : qmat RR) : meq n n (qmm n Ainv A) qmid -> meq n n (qmm n A Ainv) qmid.
+Proof. exact (left_inverse_is_right_inverse n A Ainv). Qed.
+Print Assumptions C11_left_inverse_is_right_inverse.
